@@ -46,9 +46,8 @@ type WriteChar struct {
 // Call the function with the arguments provided.
 func (f *WriteChar) Call(s *slip.Scope, args slip.List, depth int) (result slip.Object) {
 	slip.CheckArgCount(s, depth, f, args, 1, 2)
-	so := s.Get("*standard-output*")
-	w := so.(io.Writer)
-	ss, _ := so.(slip.Stream)
+	w := s.WriterVar("*standard-output*", depth)
+	ss, _ := w.(slip.Stream)
 	c, ok := args[0].(slip.Character)
 	if !ok {
 		slip.TypePanic(s, depth, "char", args[0], "character")
